@@ -140,7 +140,7 @@ impl Check for C01 {
     }
     fn gen_plan(&self, seed: u64, idx: u64, _thorough: bool) -> Value {
         let mut g = Gen::new(seed, "c01");
-        if idx % 10 == 4 {
+        if idx % 20 == 4 {
             // the same property through the whole system: 1-4 concurrent SOCKS5 / HTTP CONNECT tunnels (real
             // Client, sessions over real rustls, real Server and handler) each moving seeded byte streams of
             // boundary sizes in both directions at once between a simulated application and target
